@@ -6,9 +6,9 @@ use std::io::Write as _;
 
 /// Bit i of `mask` set = cut between byte i and byte i+1.  All 2^(N-1) partitions.
 macro_rules! bytes_chunked {
-    ($name:ident, $sname:ident, $n:expr) => {
+    ($name:ident, $sname:ident, $n:expr, $u:literal) => {
         #[kani::proof]
-        #[kani::unwind($n + 2)]
+        #[kani::unwind($u)]
         fn $name() {
             let buf: [u8; $n] = kani::any();
             let mask: u8 = kani::any();
@@ -47,7 +47,7 @@ macro_rules! bytes_chunked {
 
         /// the strip stream fed chunk by chunk with write_all
         #[kani::proof]
-        #[kani::unwind($n + 2)]
+        #[kani::unwind($u)]
         fn $sname() {
             let buf: [u8; $n] = kani::any();
             let mask: u8 = kani::any();
@@ -81,16 +81,16 @@ macro_rules! bytes_chunked {
     };
 }
 
-bytes_chunked!(bytes_chunked_2, stream_chunked_2, 2);
-bytes_chunked!(bytes_chunked_3, stream_chunked_3, 3);
-bytes_chunked!(bytes_chunked_4, stream_chunked_4, 4);
-bytes_chunked!(bytes_chunked_5, stream_chunked_5, 5);
+bytes_chunked!(bytes_chunked_2, stream_chunked_2, 2, 4);
+bytes_chunked!(bytes_chunked_3, stream_chunked_3, 3, 5);
+bytes_chunked!(bytes_chunked_4, stream_chunked_4, 4, 6);
+bytes_chunked!(bytes_chunked_5, stream_chunked_5, 5, 7);
 
 /// Text adapters: cuts only at character boundaries.
 macro_rules! str_chunked {
-    ($name:ident, $n:expr) => {
+    ($name:ident, $n:expr, $u:literal) => {
         #[kani::proof]
-        #[kani::unwind($n + 2)]
+        #[kani::unwind($u)]
         fn $name() {
             let buf: [u8; $n] = kani::any();
             let mask: u8 = kani::any();
@@ -143,6 +143,6 @@ macro_rules! str_chunked {
     };
 }
 
-str_chunked!(str_chunked_2, 2);
-str_chunked!(str_chunked_3, 3);
-str_chunked!(str_chunked_4, 4);
+str_chunked!(str_chunked_2, 2, 4);
+str_chunked!(str_chunked_3, 3, 5);
+str_chunked!(str_chunked_4, 4, 6);
